@@ -51,6 +51,9 @@ func longString(r *v.Rand, n int) string {
 	return string(b)
 }
 
+var asciiVals = []string{"", "", "A", "Test", "Debug Sans", "Foo Bold", "Foo Semi Bold", "My Extra Bold Family", "Italic Things",
+	"Light", "(c) 2024 Someone", "Version 9.9", "x;y; z", "%[]{}<>/() name", "Name-With-Hyphen", " ", "  two  spaces  ", "Test", "~tilde~"}
+
 func pickStr(r *v.Rand) string {
 	switch r.Intn(12) {
 	case 0:
@@ -130,6 +133,12 @@ func genFields(r *v.Rand, mode string, cffFont bool) *fields {
 		s.Angle = v.Pick(r, []float64{0, 0, 0, -12, -9.5})
 		s.UPos, s.UThick = -float64(r.Range(50, 150)), float64(r.Range(20, 80))
 	}
+	if mode == "ascii" {
+		// printable ASCII only (the name table's bytes are then compared with the model's)
+		s.Family = v.Pick(r, asciiVals[2:])
+		s.Descr, s.Sample, s.Copyright = v.Pick(r, asciiVals), v.Pick(r, asciiVals), v.Pick(r, asciiVals)
+		s.Trademark, s.License, s.LicURL = v.Pick(r, asciiVals), v.Pick(r, asciiVals), v.Pick(r, asciiVals)
+	}
 	if mode == "canonical" {
 		// make the assignment consistent (see canonical.go)
 		if s.Angle != 0 || s.Oblique {
@@ -159,7 +168,7 @@ func genFields(r *v.Rand, mode string, cffFont bool) *fields {
 }
 
 func genCycles(run *v.Run, r *v.Rand, tier string) {
-	n := v.Count(tier, 260, 9000)
+	n := v.Count(tier, 700, 14000)
 	names := []string{"cffmini", "cffmini", "cffmini", "cffcid", "cffcid", "glyfmini", "glyfmini", "glyfmini", "debug", "go"}
 	cmaps := []string{"own", "nil", "empty", "f4", "f4", "f4lig", "f4lig", "f12"}
 	layouts := []string{"-", "-", "-", "s", "d", "p", "sdp", "dp"}
@@ -180,7 +189,7 @@ func genCycles(run *v.Run, r *v.Rand, tier string) {
 		} else if t.CMap == "own" {
 			t.CMap = "f4"
 		}
-		mode := v.Pick(r, []string{"plain", "plain", "extreme", "extreme", "canonical"})
+		mode := v.Pick(r, []string{"plain", "ascii", "extreme", "extreme", "canonical", "canonical"})
 		cffFont := t.Name == "debug" || t.Name == "cffmini" || t.Name == "cffcid"
 		c := &cycleCase{t, genFields(r, mode, cffFont)}
 		line, impl, fails, labels, err := runCycle(c)
@@ -324,7 +333,7 @@ func genMerges(run *v.Run, r *v.Rand, tier string) {
 	}
 	// written fonts with tables removed / replaced
 	optional := []string{"OS/2", "name", "post", "hhea", "hmtx", "maxp", "cmap", "head", "GSUB", "GPOS", "GDEF"}
-	nw := v.Count(tier, 110, 4000)
+	nw := v.Count(tier, 330, 6000)
 	for i := 0; i < nw; i++ {
 		var src source
 		if r.Chance(1, 5) {
@@ -367,7 +376,7 @@ func genMerges(run *v.Run, r *v.Rand, tier string) {
 	}
 	// byte mutations of files (mutated variants that still parse are the
 	// interesting ones; the rejected ones are counted)
-	nm := v.Count(tier, 90, 3000)
+	nm := v.Count(tier, 260, 5000)
 	for i := 0; i < nm; i++ {
 		var src source
 		if r.Chance(1, 2) {
